@@ -220,6 +220,12 @@ func jobsFor(prop, tier string) []*Job {
 				}
 			}
 		}
+		if prop == "C07" {
+			add(&Job{Name: "O2a-retry-expression-semantics", Pkg: "buffer", Harness: "VerifC07Expr", TimeoutS: 60,
+				Bounds: "operator table and function map captured from buffer.parseExpression; six comparisons over Attempts()/ResponseCode() with symbolic values and constant, RequestMethod ==/!=, IsNetworkError, and/or of atom pairs, one nested expression"})
+			add(&Job{Name: "O2b-retry-loop", Pkg: "buffer", Harness: "VerifC07Loop", TimeoutS: 60, Unwind: 300,
+				Bounds: "real retry loop with the real predicate `ResponseCode() != 200 && Attempts() < limit` built through the captured table, limit symbolic in 2..13 (beyond the cap of 11), per-attempt status none/200/502 for the first three attempts (symbolic), then repeated"})
+		}
 		if prop == "C07" || prop == "C15" {
 			for part := 0; part < 4; part++ {
 				add(&Job{Name: fmt.Sprintf("response-side/L=2,retries=%d,part=%d", retries, part), Pkg: "buffer", Harness: "VerifBufferServe", Params: p("mode", 1, "L", 2, "retries", retries, "part", part, "wide", wide), IncKind: "cvc5", TimeoutS: 60,
